@@ -13,9 +13,10 @@ FRAGMENTS = [
     "{{inv|q}}", "{{badinv}}", "{{{1|d}}}", "{{{u}}}", "[[link|{{a|z}}]]", "[http://x.y {{a}}]",
     "<nowiki>{{a}}</nowiki>", "{{#switch:a|a=1|b=2}}", "{{lc:ABC}}", "{{#titleparts:a/b|1}}",
     "{{PAGENAME}}", "{{#ifeq:a|a|{{loop}}|n}}", "{{a|{{#invoke:bad|main}}}}", "{{list}}", "{{#unknownfn:x}}",
-    "{{a|{{m1}}}}", "{{subst:a|s}}", "{{#tag:ref|x}}", "\n== H ==\n", "\n* li {{a|i}}\n",
+    "{{a|{{m1}}}}", "{{subst:a|s}}", "{{#invoke:ppraw|main|boom}}", "{{#invoke:ppcall|main|boom}}",
+    "{{#invoke:etcall|main|boom}}", "{{#invoke:ppraw|main|a{{!}}x}}", "{{#invoke:ppcall|main|inv{{!}}boom}}", "{{#tag:ref|x}}", "\n== H ==\n", "\n* li {{a|i}}\n",
 ]
-FLAT_SAFE = ["{{a|x}}", "{{b|p|x=q}}", "{{#if:x|y|z}}", "{{#invoke:echo|main|a}}", "{{lc:ABC}}", "{{missing}}",
+FLAT_SAFE = ["{{#invoke:ppraw|main|boom}}", "{{#invoke:ppcall|main|boom}}", "{{#invoke:etcall|main|boom}}", "{{a|x}}", "{{b|p|x=q}}", "{{#if:x|y|z}}", "{{#invoke:echo|main|a}}", "{{lc:ABC}}", "{{missing}}",
              "{{#invoke:bad|main}}", "{{inv|q}}"]
 
 
